@@ -155,6 +155,38 @@ def run_property(pid, tier="quick", seed=0):
         for (ln, what, line) in r["cheats"]:
             assumptions.add(f"{o['unit']}: {what}: {line}")
 
+    # ---- twin fallback: a Verus obligation that came back UNDECIDED (an edit pushed the function out of Verus's subset, an
+    # anchor moved, an extraction rule refused) is handed to its registered Kani twins -- bounded harnesses on the unextracted
+    # real crate.  A failing twin is a violation (with Kani's concrete values); a passing twin does NOT discharge the
+    # obligation (it stays undecided: the twin is bounded).
+    twin_ran = {}
+    if undecided:
+        wanted = []
+        for o in spec["obligations"]:
+            if o["engine"] != "vx":
+                continue
+            r, err = unit_results[o["unit"]]
+            if err is None and (r is None or r["status"] != "undecided"):
+                continue
+            for fn in o["fns"]:
+                full = f"{o['unit']}::{fn}"
+                info = (r or {}).get("per_fn", {}).get(full) if r else None
+                if info is not None and info.get("success") is True:
+                    continue
+                tw = SPEC.get("twins", {}).get(full)
+                if tw and full not in twin_ran:
+                    wanted.append((full, tw))
+        already = {o["harness"] for o in kx_obl}
+        for full, tw in wanted:
+            hs = tw["harness"] if isinstance(tw["harness"], list) else [tw["harness"]]
+            res = kx.run_harnesses([{"crate": tw["crate"], "harness": h, "kind": "bounded"} for h in hs if h not in already])
+            already |= set(hs)  # obligations that share twins (conflict_block / reduce_block) run them once
+            twin_ran[full] = {h: {k: v for k, v in (x or {}).items() if k != "tail"} for h, x in res.items()}
+            for h, x in res.items():
+                if x and x.get("status") == "failed":
+                    violations.append({"obligation": f"kani::{tw['crate']}::{h}", "engine": "kani", "failures": x["failed_checks"], "kani": x,
+                                       "twin_of": full})
+
     # ---- Kani harnesses ----
     kx_done = []
     for o in kx_obl:
@@ -260,6 +292,7 @@ def run_property(pid, tier="quick", seed=0):
         "wall_s": round(wall, 2),
         "violations": len(real_violations),
         "known_findings_reproduced": [v["obligation"] for (v, _) in known_hits],
+        "twin_fallback": twin_ran,
         "replays": replay_paths,
         "exit_code": rc,
     }
